@@ -16,8 +16,10 @@ META = [
   "all sector caches, start ids, allocation tables (cyclic ones included), readers, lengths", "none (no fuel: the walk counts the table down)"),
  ("cfb", "C13", "C13_no_panic_cfb_new", "C06_cfb_new_total", "cfb.rs Cfb::new (header, DIFAT walk, FAT, directory, mini stream / mini FAT)",
   "all byte strings", "OutOfFuel half needs fuel > len/512 (the DIFAT walk visits each sector read at most once)"),
- ("cfb", "C13", "C13_no_panic_get_stream", "C06_cfb_get_stream_total", "cfb.rs Cfb::get_stream",
-  "all opened containers, names, readers", "none"),
+ ("cfb", "C13", "C13_no_panic_get_stream", "C06_cfb_get_stream_total", "cfb.rs Cfb::find + Cfb::get_stream",
+  "all opened containers, paths, readers", "none"),
+ ("cfb", "C13", "C13_children_fuel_suffices", "C06_cfb_children_total", "cfb.rs Cfb::children (the stack walk over the sibling ids, under Cfb::find / has_directory)",
+  "all directory arrays (cyclic, shared and dangling sibling ids included), all seen sets, all child ids", "none: 2 x entries + 1 pops always suffice (the model's children / find_entry / has_directory are total functions)"),
  ("cfb", "C20", "C20_no_panic_parse_dirs", "C06_cfb_parse_dirs_total", "cfb.rs Directory::from_slice over chunks_exact(128)",
   "all directory chains, both sector sizes", "none"),
  ("cfb", "C18", "C18_no_panic_decompress", "C06_vba_decompress_total", "cfb.rs decompress_stream",
